@@ -71,6 +71,11 @@ def evaluate(circuit: CompiledScalarGraphs, param_vals: Array) -> Array:
         circuit evaluated with the given binary parameter values.
 
     """
+    if circuit.a_num_terms.shape[0] == 0:
+        # Every graph was the zero scalar and has been dropped by compile_scalar_graphs:
+        # the sum over an empty list of graphs is 0.
+        return jnp.zeros(param_vals.shape[0], dtype=jnp.complex64)
+
     # ====================================================================
     # TYPE A: Node Terms (1 + e^(i*alpha))
     # Padded values are masked to multiplicative identity.
